@@ -95,7 +95,7 @@ PROPS["C09"] = dict(
 
 PROPS["C01"] = dict(
     module="UpfVerif.Props.C01",
-    streams=[_ctl(3, "mix")],
+    streams=[_ctl(3, "mix"), _ctl(11, "nodes", cases=12, tcases=120)],
     rule="ctl profile 'mix': histories over 3 peers (association, establishment, modification with all 16 rule lists, deletion, report "
          "responses incl. SEID 0, reports, duplicates, expiries) with rule ids from small colliding pools incl. 0/max/missing id, and a keyed "
          "fault oracle (0/10/30 % of create, update, query calls fail); the data-plane table of the reference driver is dumped after every event",
@@ -304,7 +304,7 @@ PROPS["C20"] = dict(
 
 PROPS["C13"] = dict(
     module="UpfVerif.Props.C13",
-    streams=[dict(name="buf", args=["net=164"], shards=3, shards_thorough=12, seed_per_shard=True, timeout=900, timeout_thorough=3000)],
+    streams=[dict(name="buf", args=["net=220"], shards=3, shards_thorough=12, seed_per_shard=True, timeout=900, timeout_thorough=3000)],
     rule="S-full buffering stream: the real PfcpServer (event loop running) with the real Gtp5g driver around the simulated kernel, a simulated SMF, BUFFER multicasts fed to the real "
          "buffnetlink listener (with and without the 64-bit alignment PAD attribute), a UDP sink as gNB: sessions with 1-2 FARs (BUFF / BUFF|NOCP / FORW ...), 0-2 QERs (QFI 0, 1, 9, 63), 1-3 PDRs; "
          "notifications for live / unknown / ended sessions and known / unknown PDRs, action words BUFF, NOCP, both, neither, payloads of 0..1400 octets, bursts of 2-7 and of 500-620 packets "
